@@ -318,6 +318,13 @@ func (w *ResponseWriter) WriteMsg(m *dns.Msg) error {
 			m.Extra = append(m.Extra, opt)
 		}
 
+		// The client gets exactly one OPT (RFC 6891 §6.1.1): the one
+		// shaped below. IsEdns0 selects the last; a forwarded upstream
+		// reply (or a request section reused for the reply) that holds
+		// more would otherwise leave with the others as they came —
+		// that server's cookie, keepalive and subnet echo included.
+		m.Extra = dnsutil.SingleOPT(m.Extra, opt)
+
 		// Set common OPT parameters
 		opt.SetDo(w.do)
 		opt.SetUDPSize(w.respUDPSize)
